@@ -222,7 +222,12 @@ def run(prog, rep, tier='quick', config='default'):
     # ------------------------------------------------------------------ R17h: the opening cost of a security is recorded once
     OPEN_RX = r'HashMap<std::string::String, \(time::Date, util::decimal::ConstrainedDecimal'
     opens = [c for c in ps.calls if c.short == 'insert' and re.search(OPEN_RX, ps.ty.get(c.arg_local(0), ''))]
-    if not opens:
+    # `entry(sec).or_insert(..)` writes only when absent by construction
+    entry_inserts = [c for c in ps.calls if c.short in ('or_insert', 'or_insert_with', 'or_insert_with_key', 'or_default') and
+                     re.search(r'Entry<.*std::string::String, \(time::Date, util::decimal::ConstrainedDecimal', ps.ty.get(c.arg_local(0), ''))]
+    for n, c in enumerate(entry_inserts, 1):
+        rep.ok('R17h', 'opening-cost-recorded-once#e%d' % n, where=c.where(), fn=ps.name, detail='recorded through the entry API (%s): only when absent' % c.short)
+    if not opens and not entry_inserts:
         rep.violation('R17h', 'anchor-lost:opening-cost-map', fn=ps.name, detail='anchor lost: the map holding each security\'s cost base before its first transaction')
     for n, c in enumerate(opens, 1):
         guarded = False
